@@ -125,6 +125,7 @@ fn run_history(prog: &Value, hotcold: bool, out: Option<&mut Out>, sc: &str) -> 
         let cmd = st["cmd"].as_str().unwrap();
         let proc_ = i as u32 + 1;
         emit(json!({"e":"begin","sc":sc,"cmd":cmd,"proc":proc_}), &mut sink);
+        p.cold.cool_down();
         let mut rest = serde_json::Map::new();
         let res: Outcome<()> = match cmd {
             "backup" => {
@@ -173,10 +174,38 @@ fn run_history(prog: &Value, hotcold: bool, out: Option<&mut Out>, sc: &str) -> 
                     let mut verdicts = Vec::new();
                     for (k, (sn, want)) in snaps.iter().enumerate() {
                         let dir = tempfile::tempdir().unwrap();
+                        p.cold.cool_down();
                         let res = scn::restore_to(&repo, sn, dir.path(), &RestoreOptions::default());
                         let got = scn::read_dir_tree(dir.path());
                         let ok = res.is_ok() && got == *want;
                         verdicts.push((k, if ok { "ok" } else if res.is_err() { "err" } else { "bad" }));
+                        if !ok {
+                            continue;
+                        }
+                        // restore again over the copy: every file gets another mtime (its blobs are compared, found
+                        // matching and need not be read) and one file in turn is outdated (its blobs must be read,
+                        // possibly from a pack whose other blobs all match)
+                        let files: Vec<&String> = want.iter().filter(|(_, v)| v.0 == "file" && !v.1.is_empty()).map(|(k, _)| k).collect();
+                        for (j, victim) in files.iter().enumerate().take(5) {
+                            for f in &files {
+                                let ft = filetime::FileTime::from_unix_time(1_400_000_000 + j as i64, 0);
+                                _ = filetime::set_file_times(dir.path().join(f), ft, ft);
+                            }
+                            let vp = dir.path().join(victim);
+                            let mut data = std::fs::read(&vp).unwrap_or_default();
+                            for b in data.iter_mut() {
+                                *b ^= 0x5a;
+                            }
+                            _ = std::fs::write(&vp, data);
+                            p.cold.cool_down();
+                            let res = scn::restore_to(&repo, sn, dir.path(), &RestoreOptions::default());
+                            let got = scn::read_dir_tree(dir.path());
+                            if !(res.is_ok() && got == *want) {
+                                _ = verdicts.pop();
+                                verdicts.push((k, if res.is_err() { "err" } else { "bad" }));
+                                break;
+                            }
+                        }
                     }
                     Ok(verdicts)
                 });
